@@ -32,6 +32,8 @@ mod handler;
 pub use self::handler::VhostUserHandlerError;
 
 pub mod bitmap;
+#[cfg(feature = "verif-hooks")]
+pub mod verif;
 use crate::bitmap::BitmapReplace;
 
 mod vring;
